@@ -6,7 +6,7 @@
      bit 0: the model's outcome / memory / store differ from the observation
      bit 1: the monitor (the property, stated on the observation alone) rejects it *)
 From Verif Require Import Base.CaseCheck.
-From Verif Require Export Api.Spec.
+From Verif Require Export Api.Spec Api.Owner.
 
 (* ---------- boolean equalities ---------- *)
 Definition status_eqb (a b : status) : bool :=
@@ -70,56 +70,49 @@ Definition state_eqb (a b : state) : bool :=
 (* in-memory view = what a restart loads *)
 Definition mem_eq_reload_b (s : state) : bool :=
   map_eqb pipeline_eqb (norm_map (pm s)) (norm_map (ps s)) && map_eqb connector_eqb (cm s) (cs s)
-  && map_eqb processor_eqb (rm s) (rs s) && set_eqb (names s) (map (fun kv => p_name (snd kv)) (ps s)).
+  && map_eqb processor_eqb (rm s) (rs s) && set_eqb (names s) (map (fun kv => p_name (snd kv)) (entries (ps s))).
 
 Fixpoint nodupb (l : list nat) : bool :=
   match l with [] => true | a :: r => negb (memb a r) && nodupb r end.
 
-(* references are exact in both directions (in-memory maps) *)
+(* references are exact in both directions (in-memory maps): one test per instance *)
+Definition pl_refs_b (s : state) (k : id) (p : pipeline) : bool :=
+  (k =? p_id p) && nodupb (p_conns p) && nodupb (p_procs p)
+  && forallb (fun c => match lookup c (cm s) with Some cn => c_pipeline cn =? p_id p | None => false end) (p_conns p)
+  && forallb (fun r => match lookup r (rm s) with Some pr => (r_ptype pr =? 2) && (r_parent pr =? p_id p) | None => false end) (p_procs p).
+Definition cn_refs_b (s : state) (k : id) (c : connector) : bool :=
+  (k =? c_id c) && nodupb (c_procs c)
+  && match lookup (c_pipeline c) (pm s) with Some p => memb (c_id c) (p_conns p) | None => false end
+  && forallb (fun r => match lookup r (rm s) with Some pr => (r_ptype pr =? 1) && (r_parent pr =? c_id c) | None => false end) (c_procs c).
+Definition pr_refs_b (s : state) (k : id) (r : processor) : bool :=
+  (k =? r_id r)
+  && (if r_ptype r =? 2 then match lookup (r_parent r) (pm s) with Some p => memb (r_id r) (p_procs p) | None => false end
+      else if r_ptype r =? 1 then match lookup (r_parent r) (cm s) with Some c => memb (r_id r) (c_procs c) | None => false end
+      else false).
 Definition refs_exact_b (s : state) : bool :=
-  forallb (fun kv => let p := snd kv in
-     (fst kv =? p_id p) && nodupb (p_conns p) && nodupb (p_procs p)
-     && forallb (fun c => match lookup c (cm s) with Some cn => c_pipeline cn =? p_id p | None => false end) (p_conns p)
-     && forallb (fun r => match lookup r (rm s) with Some pr => (r_ptype pr =? 2) && (r_parent pr =? p_id p) | None => false end) (p_procs p))
-    (pm s)
-  && forallb (fun kv => let c := snd kv in
-     (fst kv =? c_id c) && nodupb (c_procs c)
-     && match lookup (c_pipeline c) (pm s) with Some p => memb (c_id c) (p_conns p) | None => false end
-     && forallb (fun r => match lookup r (rm s) with Some pr => (r_ptype pr =? 1) && (r_parent pr =? c_id c) | None => false end) (c_procs c))
-    (cm s)
-  && forallb (fun kv => let r := snd kv in
-     (fst kv =? r_id r)
-     && (if r_ptype r =? 2 then match lookup (r_parent r) (pm s) with Some p => memb (r_id r) (p_procs p) | None => false end
-         else if r_ptype r =? 1 then match lookup (r_parent r) (cm s) with Some c => memb (r_id r) (c_procs c) | None => false end
-         else false))
-    (rm s).
-
-(* the pipeline an entity belongs to *)
-Definition owner_cn (s : state) (c : connector) : id := c_pipeline c.
-Definition owner_pr (s : state) (r : processor) : option id :=
-  if r_ptype r =? 2 then Some (r_parent r)
-  else match lookup (r_parent r) (cm s) with Some c => Some (c_pipeline c) | None => None end.
-
-Definition guarded (p : pipeline) : bool := is_running p || negb (is_api (p_prov p)).
+  forallb (fun kv => pl_refs_b s (fst kv) (snd kv)) (entries (pm s))
+  && forallb (fun kv => cn_refs_b s (fst kv) (snd kv)) (entries (cm s))
+  && forallb (fun kv => pr_refs_b s (fst kv) (snd kv)) (entries (rm s)).
 
 (* resources of a running or config-provisioned pipeline are untouched by the call: the pipeline,
    its connectors and its processors are the same before and after (memory and store), and nothing
    new belongs to it afterwards *)
+Definition cn_kept_b (pid : id) (l from : list (id * connector)) : bool :=
+  forallb (fun kc => if c_pipeline (snd kc) =? pid
+                     then opt_eqb connector_eqb (lookup (fst kc) from) (Some (snd kc)) else true) (entries l).
+Definition pr_kept_b (pid : id) (s : state) (l from : list (id * processor)) : bool :=
+  forallb (fun kr => if opt_eqb Nat.eqb (owner_pr s (snd kr)) (Some pid)
+                     then opt_eqb processor_eqb (lookup (fst kr) from) (Some (snd kr)) else true) (entries l).
+Definition slice_same_b (p : pipeline) (a b : state) : bool :=
+  let pid := p_id p in
+  opt_eqb pipeline_eqb (lookup pid (pm b)) (Some p)
+  && opt_eqb pipeline_eqb (lookup pid (norm_map (ps b))) (lookup pid (norm_map (ps a)))
+  && cn_kept_b pid (cm b) (cm a) && cn_kept_b pid (cm a) (cm b)
+  && cn_kept_b pid (cs b) (cs a) && cn_kept_b pid (cs a) (cs b)
+  && pr_kept_b pid b (rm b) (rm a) && pr_kept_b pid a (rm a) (rm b)
+  && pr_kept_b pid b (rs b) (rs a) && pr_kept_b pid a (rs a) (rs b).
 Definition guards_b (a b : state) : bool :=
-  forallb (fun kv => let p := snd kv in
-    if guarded p then
-      let pid := p_id p in
-      opt_eqb pipeline_eqb (lookup pid (pm b)) (Some p)
-      && opt_eqb pipeline_eqb (lookup pid (norm_map (ps b))) (lookup pid (norm_map (ps a)))
-      && forallb (fun kc => if c_pipeline (snd kc) =? pid then opt_eqb connector_eqb (lookup (fst kc) (cm a)) (Some (snd kc)) else true) (cm b)
-      && forallb (fun kc => if c_pipeline (snd kc) =? pid then opt_eqb connector_eqb (lookup (fst kc) (cm b)) (Some (snd kc)) else true) (cm a)
-      && forallb (fun kc => if c_pipeline (snd kc) =? pid then opt_eqb connector_eqb (lookup (fst kc) (cs a)) (Some (snd kc)) else true) (cs b)
-      && forallb (fun kc => if c_pipeline (snd kc) =? pid then opt_eqb connector_eqb (lookup (fst kc) (cs b)) (Some (snd kc)) else true) (cs a)
-      && forallb (fun kr => if opt_eqb Nat.eqb (owner_pr b (snd kr)) (Some pid) then opt_eqb processor_eqb (lookup (fst kr) (rm a)) (Some (snd kr)) else true) (rm b)
-      && forallb (fun kr => if opt_eqb Nat.eqb (owner_pr a (snd kr)) (Some pid) then opt_eqb processor_eqb (lookup (fst kr) (rm b)) (Some (snd kr)) else true) (rm a)
-      && forallb (fun kr => if opt_eqb Nat.eqb (owner_pr b (snd kr)) (Some pid) then opt_eqb processor_eqb (lookup (fst kr) (rs a)) (Some (snd kr)) else true) (rs b)
-      && forallb (fun kr => if opt_eqb Nat.eqb (owner_pr a (snd kr)) (Some pid) then opt_eqb processor_eqb (lookup (fst kr) (rs b)) (Some (snd kr)) else true) (rs a)
-    else true) (pm a).
+  forallb (fun kv => if guarded (snd kv) then slice_same_b (snd kv) a b else true) (entries (pm a)).
 
 (* all-or-nothing for one call: it succeeded with the full effect the reference semantics gives
    it, or it failed and everything is as before.  A panic is neither. *)
@@ -182,7 +175,7 @@ Definition state_of_obs (m r : view) (prun : list id) (nxt clk : nat) : state :=
 (* model state vs observation (the reloaded view is what Init makes of the model's store) *)
 Definition agrees (s : state) (m r : view) : bool :=
   state_eqb s (state_of_obs m r (prun s) (next s) (clock s))
-  && set_eqb (v_names r) (map (fun kv => p_name (snd kv)) (ps s)).
+  && set_eqb (v_names r) (map (fun kv => p_name (snd kv)) (entries (ps s))).
 
 Fixpoint diff_run (s : state) (m r : view) (h : list (op * option nat)) (os : list obs) : bool :=
   match h, os with
